@@ -66,6 +66,11 @@ func c12ModuleMap() *tengo.ModuleMap {
 		"err": &tengo.Error{Value: tengo.TrueValue}, "errs": &tengo.Array{Value: []tengo.Object{&tengo.Error{Value: tengo.UndefinedValue}, &tengo.Error{Value: &tengo.Array{Value: []tengo.Object{tengo.FalseValue}}}}},
 		"nested": &tengo.Map{Value: map[string]tengo.Object{"flag": tengo.FalseValue, "list": &tengo.Array{Value: []tengo.Object{tengo.TrueValue, tengo.UndefinedValue, &tengo.String{Value: "conf"}}}}},
 	})
+	// two modules an embedder supplies as ready-made objects through its own Importable: plain immutable maps without a
+	// module name. They are different constants and must stay different through de-duplication and serialization.
+	ti := func(i int64) tengo.Object { return &tengo.Int{Value: i} }
+	mm.Add("tabA", c04Importable{&tengo.ImmutableMap{Value: map[string]tengo.Object{"v": ti(1), "name": &tengo.String{Value: "A"}, "list": &tengo.ImmutableArray{Value: []tengo.Object{ti(1)}}}}})
+	mm.Add("tabB", c04Importable{&tengo.ImmutableMap{Value: map[string]tengo.Object{"v": ti(2), "name": &tengo.String{Value: "B"}, "list": &tengo.ImmutableArray{Value: []tengo.Object{ti(2)}}}}})
 	return mm
 }
 
@@ -95,6 +100,8 @@ func c12RefMods() map[string]*ref.Module {
 		}
 		return nil, ref.ErrArgType{Name: "first", Expected: "float(compatible)", Found: ref.TypeName(a[0])}
 	}}}}
+	m["tabA"] = &ref.Module{Table: map[string]ref.Value{"v": ref.Int(1), "name": ref.Str("A"), "list": ref.NewArr([]ref.Value{ref.Int(1)}, true)}}
+	m["tabB"] = &ref.Module{Table: map[string]ref.Value{"v": ref.Int(2), "name": ref.Str("B"), "list": ref.NewArr([]ref.Value{ref.Int(2)}, true)}}
 	m["conf"] = &ref.Module{Table: map[string]ref.Value{"debug": ref.Bool(true), "off": ref.Bool(false), "nothing": ref.Undef{}, "n": ref.Int(10),
 		"err": &ref.Err{V: ref.Bool(true)}, "errs": ref.NewArr([]ref.Value{&ref.Err{V: ref.Undef{}}, &ref.Err{V: ref.NewArr([]ref.Value{ref.Bool(false)}, false)}}, false),
 		"nested": ref.NewMap(map[string]ref.Value{"flag": ref.Bool(false), "list": ref.NewArr([]ref.Value{ref.Bool(true), ref.Undef{}, ref.Str("conf")}, false)}, false)}}
@@ -119,6 +126,8 @@ var c12Prefixes = []string{
 	"f := func() { return 10 }\ng := func() { return 10 }\nh := func() { l := import(\"lib\"); return l.add(10, 10) }\nr0 := f() + g() + h() + 10\n",
 	"a := 65; b := 'A'; c := 65.0; d := \"65\"; e := [65, 'A', 65.0, \"65\", 65]; s := \"\" + \"\" + \"A\" + 'A'\n",
 	"conf := import(\"conf\")\nr0 := [conf.debug == true, conf.off == false, conf.nested.flag == false, is_undefined(conf.nothing), conf.nothing == undefined, conf.nested.list[0] == true, conf.nested.list[1] == undefined, conf.debug ? 1 : 0, conf.off || 7, conf.n + 10, conf.nested.list[2] + \"conf\"]\nr1 := [conf.debug, conf.off, conf.nothing]\nr2 := [conf.err.value == true, is_undefined(conf.errs[0].value), conf.errs[0].value == undefined, conf.errs[1].value[0] == false, conf.err.value ? 1 : 0]\n",
+	// modules supplied as objects (unnamed immutable maps) by the embedder's own Importable
+	"ta := import(\"tabA\")\ntb := import(\"tabB\")\nta2 := import(\"tabA\")\nr0 := [ta.v, tb.v, ta2.v, ta.name + tb.name + \"A\", tb.list[0] + 1, ta == ta2, ta == tb]\nfn := func() { return import(\"tabB\").v + import(\"tabA\").v * 10 }\nr1 := fn()\n",
 	"",
 	"",
 }
